@@ -1,66 +1,535 @@
-use std::cell::RefCell;
-use std::rc::Rc;
+//! vf_dfir_tick — engine D' for C24 (ticks & deferred data), C25 (references) and C26 (loops).
+//!
+//! build.rs turns every program description of `family.rs` into a function holding one
+//! `dfir_syntax!{..}`; this binary drives each compiled program with EVERY input history of the
+//! stated bound and compares what the program did with the reference interpreter of `family.rs`.
+mod family;
+mod io;
+
+use std::collections::{BTreeMap, HashMap};
+use std::sync::Mutex;
+use std::time::Instant;
+
 use dfir_rs::dfir_syntax;
 use dfir_rs::scheduled::context::DfirErased;
+use family::*;
+use io::{Ev, Io, Src};
+use vf_explore::{Report, Stats, Value, catch, cli, json, ncpu, par_map, quiet_panics};
 
-type It = (u8, u8);
-#[derive(Debug, Clone)]
-enum Ev { Item(u8, u64, It), Block(u8, u64, Vec<It>) }
+pub struct ProgEntry {
+    pub name: &'static str,
+    pub text: &'static str,
+    pub n_sources: usize,
+    pub build: fn(Io, Vec<Src>) -> DfirErased,
+}
 
-fn p1() -> (DfirErased, dfir_rs::tokio::sync::mpsc::UnboundedSender<It>, Rc<RefCell<Vec<Ev>>>) {
-    let (tx, rx) = dfir_rs::util::unbounded_channel::<It>();
-    let log = Rc::new(RefCell::new(Vec::new()));
-    let l0 = log.clone();
-    let l1 = log.clone();
-    let b1 = Rc::new(RefCell::new(Vec::<It>::new()));
-    let b1a = b1.clone();
-    let l2 = log.clone();
-    let df = dfir_syntax! {
-        n0 = source_stream(rx);
-        n1 = tee();
-        n0 -> n1;
-        n2 = for_each(|x: It| l0.borrow_mut().push(Ev::Item(0, context.current_tick().0, x)));
-        n1 -> n2;
-        loop {
-            n3 = batch();
-            n1 -> n3;
-            n4 = identity();
-            n3 -> n4;
-            loop {
-                n5 = batch();
-                n4 -> n5;
-                n6 = union();
-                n7 = tee();
-                n5 -> n6;
-                n6 -> n7;
-                n8 = filter(|x: &It| x.1 > 0);
-                n9 = map(|x: It| (x.0, x.1 - 1));
-                n10 = defer_tick();
-                n7 -> n8; n8 -> n9; n9 -> n10; n10 -> n6;
-                n11 = inspect(|x: &It| b1.borrow_mut().push(*x));
-                n12 = fold::<'tick>(|| (), |_: &mut (), _: It| ());
-                n13 = for_each(|_: ()| l1.borrow_mut().push(Ev::Block(1, context.current_tick().0, std::mem::take(&mut *b1a.borrow_mut()))));
-                n7 -> n11; n11 -> n12; n12 -> n13;
-                n7 -> n14;
-            };
-            n14 = all_iterations();
-            n15 = for_each(|x: It| l2.borrow_mut().push(Ev::Item(2, context.current_tick().0, x)));
-            n14 -> n15;
-        };
+include!(concat!(env!("OUT_DIR"), "/progs.rs"));
+
+// -------------------------------------------------------------------------------------------------
+// Running a compiled program under a history
+// -------------------------------------------------------------------------------------------------
+
+#[derive(Clone, Debug, Default, PartialEq, Eq, Hash)]
+struct Obs {
+    ticks_after: Vec<u64>,
+    log: Vec<Ev>,
+    failure: Option<String>,
+}
+
+fn run_real(e: &ProgEntry, h: &History) -> Obs {
+    let (io, srcs) = Io::new(e.n_sources);
+    let io2 = io.clone();
+    let mut obs = Obs::default();
+    let mut df = match catch(move || (e.build)(io2, srcs)) {
+        Ok(d) => d,
+        Err(m) => {
+            obs.failure = Some(format!("constructing the program panicked: {m}"));
+            return obs;
+        }
     };
-    (df.into_erased(), tx, log)
+    if df.current_tick().0 != 0 {
+        obs.failure = Some(format!("current_tick() is {} before the first tick", df.current_tick().0));
+        return obs;
+    }
+    for st in h {
+        for &(s, x) in &st.sends {
+            io.send(s, x);
+        }
+        io.reset_budget();
+        let r = catch(|| {
+            if st.avail {
+                df.run_available_sync();
+            } else {
+                df.run_tick_sync();
+            }
+        });
+        if let Err(m) = r {
+            obs.failure = Some(m);
+            break;
+        }
+        obs.ticks_after.push(df.current_tick().0);
+    }
+    obs.log = io.take_log();
+    obs
+}
+
+fn norm_obs(log: &[Ev]) -> Norm {
+    let mut m = Norm::new();
+    for ev in log {
+        match ev {
+            Ev::Item { sink, tick, item } => norm_insert(&mut m, *tick, &RefEv::Item { sink: *sink, item: *item }),
+            Ev::Block { sink, tick, items } => norm_insert(&mut m, *tick, &RefEv::Block { sink: *sink, items: items.clone() }),
+            Ev::Ref { .. } => {}
+        }
+    }
+    m
+}
+
+/// Oracle for Graph programs (C24, C26). Returns (kind, detail) of the first discrepancy.
+fn judge_graph(exp: &Expect, obs: &Obs, h: &History) -> Option<(String, String)> {
+    if let Some(f) = &obs.failure {
+        let kind = if f.contains("TICK-BUDGET") {
+            "run-does-not-become-idle"
+        } else if f.contains("ITER-BUDGET") {
+            "loop-does-not-terminate"
+        } else {
+            "panic"
+        };
+        return Some((kind.into(), f.clone()));
+    }
+    let mut prev = 0u64;
+    for (i, st) in h.iter().enumerate() {
+        let got = obs.ticks_after[i];
+        let want = exp.ticks_after[i];
+        if !st.avail && got != prev + 1 {
+            return Some((
+                "tick-counter".into(),
+                format!("step {i}: current_tick() went {prev} -> {got} across one run_tick_sync (must be +1)"),
+            ));
+        }
+        if got != want {
+            return Some((
+                "ticks-executed".into(),
+                format!(
+                    "step {i} ({}): executed {} tick(s), reference executes {} (current_tick {} -> {}, expected {})",
+                    if st.avail { "run_available_sync" } else { "run_tick_sync" },
+                    got - prev,
+                    want - prev,
+                    prev,
+                    got,
+                    want
+                ),
+            ));
+        }
+        prev = got;
+    }
+    let ne = norm_expect(exp);
+    let no = norm_obs(&obs.log);
+    if ne != no {
+        let mut keys: Vec<_> = ne.keys().chain(no.keys()).copied().collect();
+        keys.sort();
+        keys.dedup();
+        for k in keys {
+            if ne.get(&k) != no.get(&k) {
+                return Some((
+                    "outputs".into(),
+                    format!("tick {} sink {}: expected {:?}, observed {:?}", k.0, k.1, ne.get(&k), no.get(&k)),
+                ));
+            }
+        }
+    }
+    None
+}
+
+/// Oracle for reference programs (C25).
+fn judge_ref(p: &RefProg, exp: &BTreeMap<usize, Vec<RLog>>, obs: &Obs, h: &History) -> Option<(String, String)> {
+    if let Some(f) = &obs.failure {
+        return Some(("panic".into(), f.clone()));
+    }
+    for (i, _) in h.iter().enumerate() {
+        if obs.ticks_after[i] != i as u64 + 1 {
+            return Some(("tick-counter".into(), format!("step {i}: current_tick() = {}", obs.ticks_after[i])));
+        }
+    }
+    // (1) every read / mutation sees the value the reference predicts (settled state, then the
+    //     updates of earlier groups), per closure as a sequence.
+    let mut got: BTreeMap<usize, Vec<RLog>> = p.readers.iter().map(|r| (r.id, vec![])).collect();
+    let mut pos: Vec<(usize, u64, usize)> = vec![]; // (reader, tick, global position)
+    for (i, ev) in obs.log.iter().enumerate() {
+        if let Ev::Ref { reader, tick, item, before, after } = ev {
+            got.entry(*reader).or_default().push(RLog { reader: *reader, tick: *tick, item: *item, before: *before, after: *after });
+            pos.push((*reader, *tick, i));
+        }
+    }
+    // (2) group precedence inside a tick (checked first: it explains value mismatches).
+    for a in &p.readers {
+        for b in &p.readers {
+            if a.group < b.group {
+                for t in 0..h.len() as u64 {
+                    let last_a = pos.iter().filter(|x| x.0 == a.id && x.1 == t).map(|x| x.2).max();
+                    let first_b = pos.iter().filter(|x| x.0 == b.id && x.1 == t).map(|x| x.2).min();
+                    if let (Some(la), Some(fb)) = (last_a, first_b) {
+                        if la > fb {
+                            return Some((
+                                "group-order".into(),
+                                format!(
+                                    "tick {t}: closure {} (group {:?}) still ran after closure {} (group {:?}) had started",
+                                    a.id, a.group, b.id, b.group
+                                ),
+                            ));
+                        }
+                    }
+                }
+            }
+        }
+    }
+    for r in &p.readers {
+        let e = &exp[&r.id];
+        let g = &got[&r.id];
+        if e != g {
+            let i = e.iter().zip(g.iter()).position(|(x, y)| x != y).unwrap_or(e.len().min(g.len()));
+            return Some((
+                "observed-value".into(),
+                format!("closure {} entry {}: expected {:?}, observed {:?}", r.id, i, e.get(i), g.get(i)),
+            ));
+        }
+    }
+    None
+}
+
+// -------------------------------------------------------------------------------------------------
+// JSON helpers (replay files)
+// -------------------------------------------------------------------------------------------------
+
+fn hist_json(h: &History) -> Value {
+    Value::Array(
+        h.iter()
+            .map(|s| {
+                json!({"sends": s.sends.iter().map(|(k, x)| json!([k, x.0, x.1])).collect::<Vec<_>>(),
+                       "run": if s.avail { "run_available_sync" } else { "run_tick_sync" }})
+            })
+            .collect(),
+    )
+}
+
+fn hist_from_json(v: &Value) -> History {
+    v.as_array()
+        .expect("history array")
+        .iter()
+        .map(|s| Step {
+            sends: s["sends"]
+                .as_array()
+                .unwrap()
+                .iter()
+                .map(|t| (t[0].as_u64().unwrap() as usize, (t[1].as_u64().unwrap() as u8, t[2].as_u64().unwrap() as u8)))
+                .collect(),
+            avail: s["run"].as_str().unwrap() == "run_available_sync",
+        })
+        .collect()
+}
+
+// -------------------------------------------------------------------------------------------------
+// Watchdog: a stuck execution becomes a reported violation
+// -------------------------------------------------------------------------------------------------
+
+static CURRENT: Mutex<Option<HashMap<std::thread::ThreadId, (String, String, Value, Instant)>>> = Mutex::new(None);
+
+fn note_case(prog: &str, hist: &History) {
+    let mut g = CURRENT.lock().unwrap();
+    g.get_or_insert_with(HashMap::new)
+        .insert(std::thread::current().id(), (prog.to_string(), hist_string(hist), hist_json(hist), Instant::now()));
+}
+
+fn clear_case() {
+    if let Some(m) = CURRENT.lock().unwrap().as_mut() {
+        m.remove(&std::thread::current().id());
+    }
+}
+
+fn start_watchdog(property: String, tier: String) {
+    std::thread::spawn(move || {
+        loop {
+            std::thread::sleep(std::time::Duration::from_secs(2));
+            let stuck = {
+                let g = CURRENT.lock().unwrap();
+                g.as_ref().and_then(|m| m.values().find(|v| v.3.elapsed().as_secs() > 120).cloned())
+            };
+            if let Some((prog, hs, hj, _)) = stuck {
+                let mut rep = Report::new(&property, &tier, "vf_dfir_tick");
+                rep.rule = "watchdog".into();
+                rep.explanation = "an execution did not return within 120 s".into();
+                let mut st = Stats::new();
+                st.eval();
+                st.violation(
+                    format!("{property}:{prog}:{hs}:hang"),
+                    format!("program {prog} under history {hs} did not return within 120 s (hang)"),
+                    json!({"prog": prog, "history": hj}),
+                );
+                rep.section("watchdog", st);
+                rep.finish();
+            }
+        }
+    });
+}
+
+// -------------------------------------------------------------------------------------------------
+// Property drivers
+// -------------------------------------------------------------------------------------------------
+
+struct GraphCase<'a> {
+    g: &'a Graph,
+    e: &'a ProgEntry,
+    hists: Vec<History>,
+}
+
+fn check_graph_prog(prop: &str, c: &GraphCase) -> Stats {
+    let mut st = Stats::new();
+    let mut reported = false;
+    for h in &c.hists {
+        note_case(c.e.name, h);
+        let exp = match expect_graph(c.g, h) {
+            Ok(e) => e,
+            Err(Hang(m)) => {
+                println!("MACHINERY-ERROR: reference interpreter: {} on {} under {}", m, c.e.name, hist_string(h));
+                std::process::exit(2);
+            }
+        };
+        let obs = run_real(c.e, h);
+        st.eval();
+        let n_ev: usize = exp.per_tick.iter().map(|t| t.len()).sum();
+        let extra_ticks = exp.ticks_after.last().copied().unwrap_or(0) as usize > h.len();
+        if n_ev > 0 || extra_ticks {
+            st.nontrivial(&(c.e.name, hist_string(h)));
+        }
+        st.outcome(&(obs.ticks_after.clone(), norm_obs(&obs.log), obs.failure.clone()));
+        st.sample(|| {
+            json!({"prog": c.e.name, "history": hist_string(h), "ticks_after_each_step": obs.ticks_after,
+                   "observed": format!("{:?}", norm_obs(&obs.log))})
+        });
+        if let Some((kind, detail)) = judge_graph(&exp, &obs, h) {
+            if reported {
+                st.violations_total += 1;
+                continue;
+            }
+            // Re-execute once more before reporting.
+            let obs2 = run_real(c.e, h);
+            if obs2 != obs {
+                println!("MACHINERY-ERROR: {} under {} does not reproduce ({:?} vs {:?})", c.e.name, hist_string(h), obs, obs2);
+                std::process::exit(2);
+            }
+            reported = true;
+            st.violation(
+                format!("{prop}:{}:{}:{kind}", c.e.name, hist_string(h)),
+                format!("program {} under history {} — {kind}: {detail}", c.e.name, hist_string(h)),
+                json!({"prog": c.e.name, "history": hist_json(h), "kind": kind, "detail": detail,
+                       "dfir": c.e.text, "expected_ticks_after": exp.ticks_after,
+                       "expected": format!("{:?}", norm_expect(&exp)),
+                       "observed_ticks_after": obs.ticks_after, "observed": format!("{:?}", norm_obs(&obs.log))}),
+            );
+        }
+    }
+    clear_case();
+    st
+}
+
+fn table_check<T>(table: &[ProgEntry], fam: &[T], name: impl Fn(&T) -> String, text: impl Fn(&T) -> String) {
+    if table.len() != fam.len() {
+        println!("MACHINERY-ERROR: compiled table has {} programs, family has {}", table.len(), fam.len());
+        std::process::exit(2);
+    }
+    let mut names = std::collections::BTreeSet::new();
+    for (e, p) in table.iter().zip(fam) {
+        if e.name != name(p) || e.text != text(p) {
+            println!("MACHINERY-ERROR: compiled program {} differs from its description", e.name);
+            std::process::exit(2);
+        }
+        if !names.insert(e.name) {
+            println!("MACHINERY-ERROR: duplicate program name {}", e.name);
+            std::process::exit(2);
+        }
+    }
+}
+
+fn alphabet(prop: &str, thorough: bool, countdown: bool) -> Vec<It> {
+    match (prop, thorough) {
+        ("C24", false) => vec![(0, 1), (1, 2)],
+        ("C24", true) => {
+            if countdown {
+                vec![(0, 1), (1, 2), (1, 0)]
+            } else {
+                vec![(0, 1), (1, 2), (0, 2)]
+            }
+        }
+        ("C26", false) => vec![(0, 0), (0, 1), (1, 2)],
+        ("C26", true) => vec![(0, 0), (0, 1), (1, 2), (1, 3)],
+        ("C25", false) => vec![(1, 0), (2, 0)],
+        ("C25", true) => vec![(1, 0), (2, 0), (3, 0)],
+        _ => unreachable!(),
+    }
+}
+
+fn run_graph_property(rep: &mut Report, prop: &str, fam: &[Graph], table: &'static [ProgEntry], steps: usize, max_items: usize) {
+    table_check(table, fam, |g| g.name.clone(), |g| g.dfir_text());
+    let thorough = rep.thorough();
+    let mut cases: Vec<GraphCase> = fam
+        .iter()
+        .zip(table)
+        .map(|(g, e)| GraphCase {
+            g,
+            e,
+            hists: histories(steps, g.n_sources, max_items, &alphabet(prop, thorough, g.alphabet == 1), true),
+        })
+        .collect();
+    cases.sort_by_key(|c| std::cmp::Reverse(c.hists.len()));
+    let total: usize = cases.iter().map(|c| c.hists.len()).sum();
+    println!("[vf_dfir_tick] {prop}: {} programs, {} (program, history) executions", cases.len(), total);
+    let st = par_map(cases.len(), ncpu().min(16), |i| check_graph_prog(prop, &cases[i]));
+    rep.bound("programs", cases.len());
+    rep.bound("steps_per_history", steps);
+    rep.bound("max_items_per_history", max_items);
+    rep.bound("executions", total);
+    rep.section("programs_x_histories", st);
+}
+
+fn check_ref_prog(p: &RefProg, e: &ProgEntry, hists: &[History]) -> Stats {
+    let mut st = Stats::new();
+    let mut reported = false;
+    for h in hists {
+        note_case(e.name, h);
+        let exp = expect_ref(p, h);
+        let obs = run_real(e, h);
+        st.eval();
+        if exp.values().any(|v| !v.is_empty()) {
+            st.nontrivial(&(e.name, hist_string(h)));
+        }
+        let refs: Vec<&Ev> = obs.log.iter().filter(|e| matches!(e, Ev::Ref { .. })).collect();
+        st.outcome(&(refs, obs.failure.clone()));
+        st.sample(|| json!({"prog": e.name, "history": hist_string(h), "observed_log": format!("{:?}", obs.log)}));
+        if let Some((kind, detail)) = judge_ref(p, &exp, &obs, h) {
+            if reported {
+                st.violations_total += 1;
+                continue;
+            }
+            let obs2 = run_real(e, h);
+            if obs2 != obs {
+                println!("MACHINERY-ERROR: {} under {} does not reproduce", e.name, hist_string(h));
+                std::process::exit(2);
+            }
+            reported = true;
+            st.violation(
+                format!("C25:{}:{}:{kind}", e.name, hist_string(h)),
+                format!("program {} under history {} — {kind}: {detail}", e.name, hist_string(h)),
+                json!({"prog": e.name, "history": hist_json(h), "kind": kind, "detail": detail, "dfir": e.text,
+                       "expected": format!("{:?}", exp), "observed": format!("{:?}", obs.log)}),
+            );
+        }
+    }
+    clear_case();
+    st
+}
+
+fn replay(prop: &str, file: &str) -> ! {
+    let txt = std::fs::read_to_string(file).expect("cannot read replay file");
+    let v: Value = vf_explore::serde_json::from_str(&txt).expect("replay file is not JSON");
+    let case = &v["case"];
+    let name = case["prog"].as_str().expect("case.prog");
+    let h = hist_from_json(&case["history"]);
+    println!("replaying {name} under {}", hist_string(&h));
+    let verdict = match prop {
+        "C24" | "C26" => {
+            let (fam, table) = if prop == "C24" { (family_c24(), TABLE_C24) } else { (family_c26(), TABLE_C26) };
+            let i = table.iter().position(|e| e.name == name).expect("unknown program");
+            println!("{}", table[i].text);
+            let exp = expect_graph(&fam[i], &h).expect("reference hang");
+            let obs = run_real(&table[i], &h);
+            println!("expected ticks after each step: {:?}\nexpected: {:?}", exp.ticks_after, norm_expect(&exp));
+            println!("observed ticks after each step: {:?}\nobserved: {:?}\nfailure: {:?}", obs.ticks_after, norm_obs(&obs.log), obs.failure);
+            judge_graph(&exp, &obs, &h)
+        }
+        "C25" => {
+            let fam = family_c25();
+            let i = TABLE_C25.iter().position(|e| e.name == name).expect("unknown program");
+            println!("{}", TABLE_C25[i].text);
+            let exp = expect_ref(&fam[i], &h);
+            let obs = run_real(&TABLE_C25[i], &h);
+            println!("expected: {:?}\nobserved: {:?}", exp, obs.log);
+            judge_ref(&fam[i], &exp, &obs, &h)
+        }
+        _ => unreachable!(),
+    };
+    match verdict {
+        Some((k, d)) => {
+            println!("still violates — {k}: {d}");
+            std::process::exit(1)
+        }
+        None => {
+            println!("no violation on replay");
+            std::process::exit(0)
+        }
+    }
 }
 
 fn main() {
-    let (mut df, tx, log) = p1();
-    tx.send((1, 2)).unwrap();
-    tx.send((2, 0)).unwrap();
-    df.run_tick_sync();
-    println!("{:?} tick={}", log.borrow(), df.current_tick().0);
-    log.borrow_mut().clear();
-    df.run_tick_sync();
-    println!("{:?} tick={}", log.borrow(), df.current_tick().0);
-    tx.send((3, 1)).unwrap();
-    df.run_available_sync();
-    println!("{:?} tick={}", log.borrow(), df.current_tick().0);
+    let cli = cli();
+    quiet_panics();
+    let prop = cli.property.clone();
+    if !["C24", "C25", "C26"].contains(&prop.as_str()) {
+        eprintln!("vf_dfir_tick serves C24, C25, C26");
+        std::process::exit(2);
+    }
+    if let Some(f) = &cli.replay {
+        replay(&prop, f);
+    }
+    start_watchdog(prop.clone(), cli.tier.clone());
+    let mut rep = Report::new(&prop, &cli.tier, "vf_dfir_tick");
+    let thorough = rep.thorough();
+    rep.assume("reference interpreter (family.rs) transcribes the operators' documented per-tick semantics (DESIGN Appendix A)");
+    rep.assume("programs are a bounded-exhaustive family over a small operator grammar, not all DFIR programs");
+    rep.assume("rustc/LLVM compile the generated programs faithfully; dfir_rs::util::unbounded_channel (tokio) delivers in FIFO order and wakes the registered waker on send");
+    match prop.as_str() {
+        "C24" => {
+            rep.rule = "case = (compiled program, history); history = 4 run calls, each run_tick_sync or run_available_sync (all 16 vectors), preceded by sends; all placements of <= N items (order inside a slot significant). Non-trivial: the reference produces >= 1 sink event or more ticks than run calls.".into();
+            rep.explanation = "current_tick() after every run call, number of ticks executed by run_available_sync, and the per-(tick,sink) multiset of items logged by the program's sinks (tick read from context.current_tick()) are compared with a tick-synchronous reference interpreter: defer_tick/defer_tick_lazy deliver exactly one tick later, non-lazy pending data or a send into the own input channel demands another tick, lazy data does not, 'tick state is reset per tick and 'static state kept.".into();
+            rep.assume("stateful operators downstream of union/join use order-insensitive functions; sink contents are compared as multisets per tick");
+            rep.assume("join::<'static> re-emits the whole join every tick (Appendix A)");
+            let (steps, items) = if thorough { (4, 3) } else { (4, 2) };
+            let fam = family_c24();
+            run_graph_property(&mut rep, "C24", &fam, TABLE_C24, steps, items);
+        }
+        "C26" => {
+            rep.rule = "case = (compiled program with loop blocks, history of 3 run calls x all tick/available vectors, <= N countdown items). Non-trivial: >= 1 sink event or extra ticks.".into();
+            rep.explanation = "Sinks inside loop bodies log one block per execution of the body (heartbeat: a unit fold emits once per subgraph run), sinks after all_iterations log per tick. Per (tick,sink): the SEQUENCE of per-iteration blocks (each a multiset) must equal the reference interpreter's explicit iteration semantics: a root loop body runs at most once per tick and only if a non-lazy entry or non-lazy tick-deferred data is present; a nested loop re-runs while a non-lazy entry buffer or non-lazy loop-deferred data is non-empty; defer_tick(_lazy) inside a nested loop delays by exactly one iteration; batch/batch_lazy release their input to the iteration that drains the entry buffer, lazy input is dropped if the loop does not fire.".into();
+            rep.assume("fold emits exactly one value per execution of its subgraph (used as the per-iteration heartbeat of block sinks)");
+            rep.assume("batch hands its whole pending input to the first iteration of an activation (the operator doc only promises order-preserving splitting into batches)");
+            let (steps, items) = if thorough { (3, 3) } else { (3, 2) };
+            let fam = family_c26();
+            run_graph_property(&mut rep, "C26", &fam, TABLE_C26, steps, items);
+        }
+        "C25" => {
+            rep.rule = "case = (compiled program with one state and 1-3 referencing closures, history of run_tick_sync calls with all placements of <= N items over all sources). Non-trivial: >= 1 closure invocation expected.".into();
+            rep.explanation = "Every referencing closure logs (closure, tick, item, value seen, value left). Per closure the log sequence must equal the reference: the state value after ALL same-tick producers ran, then the fixed non-commutative updates (v*2+item) of all closures in lower access groups. In the global log, within a tick, every entry of a lower group precedes every entry of a higher group on the same state.".into();
+            rep.assume("'group declared later' is read as 'higher access-group number #{N}'; the textual declaration order of the closures is permuted and must not matter");
+            rep.assume("mutating closures are only used on 'tick states (persistence of a mutation made through a reference into the next tick of a 'static state is not specified)");
+            let fam = family_c25();
+            table_check(TABLE_C25, &fam, |p| p.name.clone(), |p| p.dfir_text());
+            let (steps, items) = if thorough { (3, 3) } else { (2, 3) };
+            let alpha = alphabet("C25", thorough, false);
+            let mut cases: Vec<(usize, Vec<History>)> =
+                fam.iter().enumerate().map(|(i, p)| (i, histories(steps, p.n_sources(), items, &alpha, false))).collect();
+            cases.sort_by_key(|c| std::cmp::Reverse(c.1.len()));
+            let total: usize = cases.iter().map(|c| c.1.len()).sum();
+            println!("[vf_dfir_tick] C25: {} programs, {} (program, history) executions", cases.len(), total);
+            let st = par_map(cases.len(), ncpu().min(16), |k| {
+                let (i, hs) = &cases[k];
+                check_ref_prog(&fam[*i], &TABLE_C25[*i], hs)
+            });
+            rep.bound("programs", cases.len());
+            rep.bound("steps_per_history", steps);
+            rep.bound("max_items_per_history", items);
+            rep.bound("executions", total);
+            rep.section("programs_x_histories", st);
+        }
+        _ => unreachable!(),
+    }
+    rep.finish();
 }
